@@ -187,7 +187,8 @@ def shared_tables():
     t = {}
     t["EncodingDB.encodings"] = ("immutable", {k: hash((id(v), _flat_hash(v))) for k, v in EncodingDB.encodings.items()})
     for nm in ("std2unicode", "mac2unicode", "win2unicode", "pdf2unicode"):
-        t["EncodingDB." + nm] = ("immutable", {"*": _flat_hash(getattr(EncodingDB, nm)), "n": len(getattr(EncodingDB, nm))})
+        # entry by entry (<= 256 codes): an ASSIGNED, an ADDED and a REMOVED code each show up under their own key
+        t["EncodingDB." + nm] = ("immutable", {k: hash(v) for k, v in getattr(EncodingDB, nm).items()})
     t["glyphname2unicode"] = ("immutable", {"*": _flat_hash(glyphname2unicode), "n": len(glyphname2unicode)})
     t["latin_enc.ENCODING"] = ("immutable", {"*": hash(tuple(ENCODING))})
     t["FONT_METRICS"] = ("immutable", {k: hash((_h(v[0]), _flat_hash(v[1]))) for k, v in FONT_METRICS.items()})
@@ -214,9 +215,13 @@ def table_delta(before, after):
     for name, (cls, b) in before.items():
         a = after[name][1]
         old = {k: a[k] for k in b if k in a}
-        changed = [repr(k)[:60] for k in b if a.get(k, None) != b[k]][:5]
+        miss = object()
+        changed = [repr(k)[:60] for k in b if k in a and a[k] != b[k]][:5]
+        removed = [repr(k)[:60] for k in b if a.get(k, miss) is miss][:5]
+        # oldafter covers removal too: a key that existed before and is gone makes `old` smaller than `b`
         out.append({"name": name, "cls": cls, "nb": len(b), "na": len(a), "before": table_summary(b),
-                    "after": table_summary(a), "oldafter": table_summary(old), "changed": changed})
+                    "after": table_summary(a), "oldafter": table_summary(old),
+                    "changed": changed + ["removed " + k for k in removed]})
     return out
 
 
